@@ -87,6 +87,16 @@
 
 /* Whether we've installed the library termination function yet for this
    interface */
+/* The annotation interface id is the file id: accept nothing but a file id
+   (an annotation id or any other atom handed in here is not a file record) */
+static filerec_t *
+ANIfile_rec(int32 an_id)
+{
+    if (HAatom_group(an_id) != FIDGROUP)
+        return NULL;
+    return (filerec_t *)HAatom_object(an_id);
+}
+
 static int library_terminate = FALSE;
 
 /* Function Prototypes for fcns used by TBBT. Can not be static. */
@@ -304,7 +314,7 @@ ANIaddentry(int32    an_id, /* IN: annotation interface id */
     HEclear();
 
     /* convert an_id i.e. file_id to file rec and check for validity */
-    file_rec = HAatom_object(an_id);
+    file_rec = ANIfile_rec(an_id);
     if (BADFREC(file_rec))
         HGOTO_ERROR(DFE_ARGS, FAIL);
 
@@ -432,7 +442,7 @@ ANIcreate_ann_tree(int32    an_id,/* IN: annotation interface id */
     HEclear();
 
     /* convert an_id i.e. file_id to file rec and check for validity */
-    file_rec = HAatom_object(an_id);
+    file_rec = ANIfile_rec(an_id);
     if (BADFREC(file_rec))
         HGOTO_ERROR(DFE_ARGS, FAIL);
 
@@ -605,7 +615,7 @@ ANInumann(int32    an_id,  /* IN: annotation interface id */
     HEclear();
 
     /* convert an_id i.e. file_id to file rec and check for validity */
-    file_rec = HAatom_object(an_id);
+    file_rec = ANIfile_rec(an_id);
     if (BADFREC(file_rec))
         HGOTO_ERROR(DFE_ARGS, FAIL);
 
@@ -666,7 +676,7 @@ ANIannlist(int32    an_id,  /* IN: annotation interface id */
     HEclear();
 
     /* convert an_id i.e. file_id to file rec and check for validity */
-    file_rec = HAatom_object(an_id);
+    file_rec = ANIfile_rec(an_id);
     if (BADFREC(file_rec))
         HGOTO_ERROR(DFE_ARGS, FAIL);
 
@@ -1188,7 +1198,7 @@ ANfileinfo(int32  an_id,        /* IN:  annotation interface id */
     HEclear();
 
     /* convert an_id i.e. file_id to file rec and check for validity */
-    file_rec = HAatom_object(an_id);
+    file_rec = ANIfile_rec(an_id);
     if (BADFREC(file_rec))
         HGOTO_ERROR(DFE_ARGS, FAIL);
 
@@ -1251,7 +1261,7 @@ ANend(int32 an_id /* IN: Annotation ID of file to close */)
     HEclear();
 
     /* convert an_id i.e. file_id to file rec and check for validity */
-    file_rec = HAatom_object(an_id);
+    file_rec = ANIfile_rec(an_id);
     if (BADFREC(file_rec))
         HGOTO_ERROR(DFE_ARGS, FAIL);
 
@@ -1450,7 +1460,7 @@ ANselect(int32    an_id, /* IN: annotation interface ID */
     HEclear();
 
     /* convert an_id i.e. file_id to file rec and check for validity */
-    file_rec = HAatom_object(an_id);
+    file_rec = ANIfile_rec(an_id);
     if (BADFREC(file_rec))
         HGOTO_ERROR(DFE_ARGS, FAIL);
 
@@ -1690,7 +1700,7 @@ ANget_tagref(int32    an_id, /* IN: annotation interface ID */
     HEclear();
 
     /* convert an_id i.e. file_id to file rec and check for validity */
-    file_rec = HAatom_object(an_id);
+    file_rec = ANIfile_rec(an_id);
     if (BADFREC(file_rec))
         HGOTO_ERROR(DFE_ARGS, FAIL);
 
@@ -1836,7 +1846,7 @@ ANtagref2id(int32  an_id,   /* IN  Annotation interface id */
     HEclear();
 
     /* convert an_id i.e. file_id to file rec and check for validity */
-    file_rec = HAatom_object(an_id);
+    file_rec = ANIfile_rec(an_id);
     if (BADFREC(file_rec))
         HGOTO_ERROR(DFE_ARGS, FAIL);
 
